@@ -13,6 +13,7 @@ exit 3: harness error / inconclusive obligation (never reported as success)
 from __future__ import annotations
 
 import argparse
+import copy
 import concurrent.futures as cf
 import importlib
 import json
@@ -27,6 +28,19 @@ PY = os.path.join(ROOT, ".venv", "bin", "python")
 EXIT_OK, EXIT_VIOLATION, EXIT_HARNESS = 0, 1, 3
 
 
+_CHILDREN = set()
+
+
+def _kill_children(*_a):
+    for p in list(_CHILDREN):
+        try:
+            p.kill()
+        except Exception:  # noqa
+            pass
+    if _a:
+        os._exit(143)
+
+
 def _sub(cmd, wall, tag, env=None):
     e = dict(os.environ)
     e["PYTHONPATH"] = ROOT
@@ -35,11 +49,18 @@ def _sub(cmd, wall, tag, env=None):
     if env:
         e.update(env)
     t0 = time.time()
+    p = subprocess.Popen(cmd, stdout=subprocess.PIPE, stderr=subprocess.PIPE, text=True, env=e, cwd=ROOT)
+    _CHILDREN.add(p)
     try:
-        p = subprocess.run(cmd, capture_output=True, text=True, timeout=wall, env=e, cwd=ROOT)
-    except subprocess.TimeoutExpired:
-        return {"status": "unknown", "message": "hard wall timeout %.0fs" % wall, "wall_s": wall}
-    for line in reversed(p.stdout.splitlines()):
+        try:
+            out, err = p.communicate(timeout=wall)
+        except subprocess.TimeoutExpired:
+            p.kill()
+            p.communicate()
+            return {"status": "unknown", "message": "hard wall timeout %.0fs" % wall, "wall_s": wall}
+    finally:
+        _CHILDREN.discard(p)
+    for line in reversed(out.splitlines()):
         if line.startswith(tag + " "):
             d = json.loads(line[len(tag) + 1:])
             d.setdefault("wall_s", round(time.time() - t0, 3))
@@ -47,8 +68,8 @@ def _sub(cmd, wall, tag, env=None):
     return {
         "status": "error",
         "message": "no %s line (rc=%s)" % (tag, p.returncode),
-        "stderr": p.stderr[-3000:],
-        "stdout": p.stdout[-1000:],
+        "stderr": err[-3000:],
+        "stdout": out[-1000:],
         "wall_s": round(time.time() - t0, 3),
     }
 
@@ -82,13 +103,17 @@ def load_findings():
     return json.load(open(p))["entries"]
 
 
-def match_finding(findings, pid, obname, clause):
+def match_finding(findings, pid, obname, clause, known_classes=()):
+    """a listed finding matches only the obligation, the clause AND the input
+    class it was recorded for (the harness marks the class with h.known)"""
     for f in findings:
         if f.get("status") != "finding" or f.get("property") != pid:
             continue
         if not re.fullmatch(f.get("obligation", ".*"), obname):
             continue
         if f.get("clause") is not None and f["clause"] != clause:
+            continue
+        if f.get("input_class", True) and f["id"] not in (known_classes or ()):
             continue
         return f
     return None
@@ -126,6 +151,7 @@ def handle(module, pid, ob, twin, findings):
         if off.get("ret") is not True:
             rec["outcome"] = "violation"
             rec["clause"] = off.get("clause") or off.get("exc")
+            rec["known_classes"] = off.get("known") or []
             rec["why"] = "reachability witness violates the clause on the real code"
             return rec
         if on.get("ret") is not False:
@@ -151,6 +177,48 @@ def handle(module, pid, ob, twin, findings):
             return rec
         rec["outcome"] = "violation"
         rec["clause"] = r.get("clause") or v.get("clause") or r.get("exc")
+        rec["known_classes"] = r.get("known") or []
+        # a listed finding: re-run with its input class excluded so that any
+        # OTHER violation of the same obligation is still reported
+        hits = []
+        excl = []
+        cur = rec
+        for _round in range(4):
+            f = match_finding(findings, pid, ob.name, cur.get("clause"), cur.get("known_classes"))
+            if f is None:
+                break
+            hits.append({"finding": f, "verdict": cur["verdict"], "clause": cur["clause"]})
+            excl.append(f["id"])
+            ob2 = copy.copy(ob)
+            ob2.params = dict(ob.params, exclude=excl)
+            v2 = run_symbolic(module, ob2, None)
+            if v2.get("status") == "unknown":
+                v2 = run_symbolic(module, ob2, None, timeout=ob.timeout * 3)
+            nxt = {"verdict": v2}
+            if v2.get("status") == "confirmed":
+                rec["outcome"] = "known"
+                rec["hits"] = hits
+                rec["verdict_excluding_known"] = v2
+                return rec
+            if v2.get("status") == "refuted" and "args" in v2:
+                r2 = run_replay(module, replay_fn, v2["args"], ob2.params, None)
+                if r2.get("ret") is True:
+                    rec["outcome"] = "harness"
+                    rec["why"] = "counterexample (known finding excluded) does not reproduce: %s" % v2.get("message")
+                    return rec
+                nxt["clause"] = r2.get("clause") or v2.get("clause") or r2.get("exc")
+                nxt["known_classes"] = r2.get("known") or []
+                cur = nxt
+                rec["verdict"] = v2
+                rec["clause"] = nxt["clause"]
+                rec["known_classes"] = nxt["known_classes"]
+                rec["params"] = ob2.params
+                continue
+            rec["outcome"] = "inconclusive"
+            rec["why"] = "after excluding known finding(s) %s: %s" % (excl, v2.get("message") or v2.get("status"))
+            rec["hits"] = hits
+            return rec
+        rec["hits"] = hits
         return rec
     rec["outcome"] = "harness" if st == "error" else "inconclusive"
     rec["why"] = v.get("message") or st
@@ -181,6 +249,12 @@ def main(argv=None):
         print("VIOLATION property=%s replay=%s" % (pid, a.replay))
         return EXIT_VIOLATION
 
+    import atexit
+    import signal
+
+    atexit.register(_kill_children)
+    signal.signal(signal.SIGTERM, _kill_children)
+    signal.signal(signal.SIGINT, _kill_children)
     t0 = time.time()
     os.environ["VERIF_MODE"] = "real"
     sys.path.insert(0, ROOT)
@@ -217,8 +291,14 @@ def main(argv=None):
     witnesses = []
     for r in recs:
         oc = r["outcome"]
+        if oc == "known":
+            for hit in r["hits"]:
+                known.append((r, hit["finding"]))
+            continue
         if oc == "violation":
-            f = match_finding(findings, pid, r["ob"], r.get("clause"))
+            for hit in r.get("hits", []):
+                known.append((r, hit["finding"]))
+            f = match_finding(findings, pid, r["ob"], r.get("clause"), r.get("known_classes"))
             os.makedirs(rdir, exist_ok=True)
             path = os.path.join(rdir, re.sub(r"[^A-Za-z0-9_.~-]", "_", r["name"]) + ".json")
             json.dump({"property": pid, "module": module, "fn": r["verdict"].get("replay_fn", r["fn"]),
@@ -234,8 +314,11 @@ def main(argv=None):
         elif oc == "witness":
             witnesses.append(r)
 
+    seen_f = {}
     for r, f in known:
-        print("KNOWN-FINDING: property=%s %s [%s; obligation %s]" % (pid, f["what"], f.get("id", ""), r["name"]))
+        seen_f.setdefault(f.get("id", ""), (f, []))[1].append(r["name"])
+    for fid, (f, names) in seen_f.items():
+        print("KNOWN-FINDING: property=%s %s [%s; hit by obligations: %s]" % (pid, f["what"], fid, ", ".join(sorted(set(names)))))
     for r in violations:
         print("# %s: %s -- %s" % (r["name"], r.get("clause"), r["verdict"].get("message")))
         print("VIOLATION property=%s replay=%s" % (pid, r["replay_path"]))
@@ -243,7 +326,7 @@ def main(argv=None):
         print("# INCONCLUSIVE/HARNESS %s: %s" % (r["name"], r.get("why")), file=sys.stderr)
 
     mains = [r for r in recs if not r["twin"]]
-    discharged = [r for r in mains if r["outcome"] == "discharged"]
+    discharged = [r for r in mains if r["outcome"] in ("discharged", "known")]
     distinct = {json.dumps([r["ob"], r["twin"], r["verdict"].get("args")], sort_keys=True, default=repr)
                 for r in witnesses}
     info = getattr(mod, "INFO", {})
